@@ -143,3 +143,50 @@ func RunDefaultRootTwins(x *mon.Ctx) {
 	}
 	x.Extra["default_root_twins"] = fmt.Sprintf("live: %d cases over %d roots re-run with no pool and the root installed as embedded root (%d skipped: root does not parse)", ran, len(keys), skipped)
 }
+
+// RunSingleProcessorPhase re-runs a sample of the collected cases (under their own pools) with GOMAXPROCS = 1 — a one-vCPU
+// verifier. The verdict is a function of the case, not of how many processors the runtime may use (a library that farms checks
+// out to GOMAXPROCS-1 helpers runs none of them there).
+func RunSingleProcessorPhase(x *mon.Ctx) {
+	t := x.Twins
+	if t == nil || len(t.Buckets) == 0 {
+		return
+	}
+	const class = "single-processor"
+	keys := make([]string, 0, len(t.Buckets))
+	for k := range t.Buckets {
+		keys = append(keys, k)
+	}
+	sort.Strings(keys)
+	var sample []mon.Twin
+	limit := x.Pick(400, 4000)
+	for round := 0; len(sample) < limit; round++ {
+		added := false
+		for _, k := range keys {
+			if b := t.Buckets[k]; round < len(b) && len(sample) < limit {
+				sample = append(sample, b[round])
+				added = true
+			}
+		}
+		if !added {
+			break
+		}
+	}
+	prev := setProcs(1)
+	defer setProcs(prev)
+	for i, tw := range sample {
+		c := *tw.Case
+		c.Class, c.ShadowSkip = class+"/"+tw.Case.Class, true
+		c.Expect = "reject"
+		if tw.Accepted {
+			c.Expect = "accept"
+		}
+		x.Crumb(i, "verify", &c)
+		out := mon.RunVerify(&c)
+		if out.Panic != "" || out.Accepted != tw.Accepted {
+			x.Violation(class, tw.Case.Class+"/"+tw.Case.Param, fmt.Sprintf("with GOMAXPROCS=1 the verdict is accepted=%v (%s%s); with %d processors it was accepted=%v", out.Accepted, out.Err, out.Panic, prev, tw.Accepted), "verify", &c)
+		}
+		x.Note(class, fmt.Sprintf("%s/%s/%s/%s", tw.Case.Class, tw.Case.Param, c.Form, lvl(&c)), out.Accepted, out.Panic != "", true)
+	}
+	x.Extra["single_processor_cases"] = len(sample)
+}
